@@ -75,8 +75,9 @@ def simulate(pat, cap0):
 
 def vec(xs): return '{' + ','.join(str(x) for x in list(xs) + [0]) + '}'
 
-def capset(op, size, cap, live, size2, cap2, ARG, POST):
-    s = {cap} if cap else set()
+def capset(op, size, cap, live, size2, cap2, ARG, POST, hist=()):
+    s = {c for c in hist if c}              # every capacity on the construction trajectories (initial ones included)
+    if cap: s.add(cap)
     if op in INSERTING and size == cap: s.add((cap or 1) * 2)
     if op in TWO and cap2: s.add(cap2)
     if op in ('MERGE_COPY', 'MERGE_MOVE') and size + size2 > cap: s.add(pow2(size + size2))
@@ -93,7 +94,9 @@ def tq(op, pat, CAP, pat2='', CAP2=2, ARG=0, POST=0, HLIST=0, OBS=15, timeout=30
     tr, size, cap, live = simulate(pat, CAP)
     tr2, size2, cap2, live2 = simulate(pat2, CAP2)
     K, K2 = len(pat), len(pat2)
-    cs = capset(op, size, cap, live, size2, cap2, ARG, POST)
+    hist = [pow2(CAP) if CAP else 0] + [x[1] for x in tr]
+    if op in TWO: hist += [pow2(CAP2) if CAP2 else 0] + [x[1] for x in tr2]
+    cs = capset(op, size, cap, live, size2, cap2, ARG, POST, hist)
     capmax = max(cs) if cs else 2
     E = max(size + size2, size, ((live if size == cap else size) + 1) if op in INSERTING else 0, 1) + POST   # most storage slots in use
     S = E + 1
